@@ -9,8 +9,6 @@ from vlib.util import where, short
 
 RACED = {
     ("<ReqSocket as ISocket>::recv::{closure#0}", "reply_available_notifier"): "REQ recv races the notifier with ingress_engine.recv_logical_message(RCVTIMEO); the notifier only aborts a recv whose state was reset",
-    ("dealer_socket::DealerSocket::queue_message_or_error::{closure#0}", "outgoing_queue_activity_notifier"): "sender-side wait for queue space, bounded by SNDTIMEO or raced with peer_availability_notifier (not a receiver path)",
-    ("dealer_socket::DealerSocket::queue_message_or_error::{closure#0}", "peer_availability_notifier"): "sender-side wait for queue space, raced with outgoing_queue_activity_notifier (not a receiver path)",
     ("<DealerSocket as ISocket>::send_multipart::{closure#0}", "completion_notifier"): "DEALER multipart send waits for a prior transaction, raced with a 50 ms is_running() poll and SNDTIMEO (not a receiver path)",
 }
 
